@@ -13,6 +13,9 @@ var c01BinOps = []string{"+", "-", "*", "/", "%", "==", "!=", "<", "<=", ">", ">
 func c01Shapes() []*c01N {
 	return []*c01N{
 		nInt(0), nInt(1), nInt(-1), nInt(9223372036854775807), nFloat(1.5), nFloat(2.0),
+		// two integers beyond 2^53 that are distinct but round to the same float64: integer comparison and
+		// arithmetic are exact, whatever helper they go through
+		nInt(9007199254740992), nInt(9007199254740993),
 		nStr(""), nStr("a"), nBool(true), nBool(false), nNull(),
 		nArr(), nArr(nInt(1), nInt(2)), nObj("a", nInt(1)),
 	}
@@ -488,7 +491,9 @@ func c01L4(thorough bool, names []string, e func(func() c01Case), b map[string]a
 			one(nCall("max", x, y))
 		}
 	}
-	for _, x := range []string{"42", "-10", "0", "007", "+5", " 7", "7 ", "3.9", "abc", "", "12a", "9223372036854775807", "99999999999999999999", "-0", "1e3"} {
+	for _, x := range []string{"42", "-10", "0", "007", "+5", " 7", "7 ", "3.9", "abc", "", "12a", "9223372036854775807", "99999999999999999999", "-0", "1e3",
+		// zero-padded decimal strings (ids, zip codes): decimal whatever the digits after the zero are
+		"010", "089", "0755", "-0012", "00", "0x1f", "1_000", "0b11"} {
 		one(nCall("parseInt", nStr(x)))
 		one(nBin("+", nCall("parseInt", nStr(x)), nInt(1)))
 	}
